@@ -292,10 +292,16 @@ class Composite:
 class DrivePart:
     """xvdrive run with explicit arguments, used as a part of a Composite."""
 
-    def __init__(self, harnesses, args, probed=()):
+    def __init__(self, harnesses, args, probed=(), deadline=(3000, 3000)):
         self.harnesses = harnesses
         self.args = list(args)
         self.probed = set(probed)
+        self.deadline = deadline
+
+    def replay(self, prop, path):
+        if "perm" in self.harnesses:
+            return CHECKS["C05"].replay("C05", path)
+        return Elementwise(self.harnesses, "", "", probed=bool(self.probed)).replay(prop, path)
 
     def __call__(self, prop, tier, seed):
         run, skipped = vlib.runnable_archs()
@@ -320,7 +326,7 @@ class DrivePart:
         os.makedirs(vlib.OUT, exist_ok=True)
         out = os.path.join(vlib.OUT, "%s.%s.drive.json" % (prop, tier))
         known = ",".join(f["id"] for f in vlib.open_findings(prop))
-        cmd = [drv, "--prop", prop if "--placement" in self.args else "C05" if "perm" in self.harnesses else prop, "--tier", tier, "--seed", str(seed), "--out", out, "--threads", str(vlib.NPROC), "--deadline", "3000"] + self.args + extra_args
+        cmd = [drv, "--prop", prop if "--placement" in self.args else "C05" if "perm" in self.harnesses else prop, "--tier", tier, "--seed", str(seed), "--out", out, "--threads", str(vlib.NPROC), "--deadline", str(self.deadline[1 if tier == "thorough" else 0])] + self.args + extra_args
         if known:
             cmd += ["--known", known]
         for m in mods:
@@ -331,8 +337,9 @@ class DrivePart:
 
 
 class MathPart:
-    def __init__(self, types, args):
+    def __init__(self, types, args, full_archs=None):
         self.mc = MathCheck(types, "", "", extra_args=args)
+        self.full_archs = full_archs or FULL_SWEEP_ARCHS
 
     def __call__(self, prop, tier, seed):
         drv, mods, run, skipped = self.mc.build(prop)
@@ -342,6 +349,8 @@ class MathPart:
         cmd = [drv, "--prop", prop, "--tier", tier, "--seed", str(seed), "--out", out, "--threads", str(vlib.NPROC), "--types", self.mc.types, "--deadline", "3000"] + self.mc.extra_args
         if known:
             cmd += ["--known", known]
+        if tier == "thorough":
+            cmd += ["--full-archs", ",".join(a for a in self.full_archs if a in run)]
         for m in mods:
             cmd += ["--mod", m]
         if subprocess.run(cmd).returncode != 0:
@@ -822,9 +831,12 @@ CHECKS = {
     "C16": MathCheck("float,double", "every operand tuple of the log-polar grid is executed by every architecture's complex kernel (operands travel as separate real/imaginary arrays) and each component is compared with std::complex<long double> / the textbook formula within the property's tolerance; premises (finite operands, no intermediate overflow, |Re|,|Im| <= 20 for tan/tanh) are applied as filters; states = operand tuples; transitions = lane results judged", {
         "quick": "moduli 2^k, k in [-40,40] step 2 (float) / [-300,300] step 12 (double) x 64 arguments, the four axes with both signs of the zero part, +-1 ulp off each axis, moderate box points, 64 seed points; binary operations on a thinned grid^2 (about 225 000 pairs), fused forms on a small grid^3 (about 250 000 triples), pow with 11 real exponents, polar over 129 angles; all 22 architectures",
         "thorough": "same grid (complete for its definition)"}, extra_args=["--complex"]),
-    "C17": Elementwise(["scalar"], RULE_EW + "; the scalar overloads are run one element per call and judged by the same reference models as the batch lanes (so scalar == batch wherever the model is single-valued); NaN operands are outside the property", {
-        "quick": "the C01/C02/C03/C06/C07/C08 operand spaces (8-bit pairs exhaustive, ALL16 x L16, lattices^2, every shift/rotate count, fp lattices, rounding windows) for add, sub, mul, div, mod, neg, abs, min, max, sadd, ssub, avg, avgr, incr/decr(_if), bitwise operators, shifts, rotates, comparisons, select, is_flint/is_even/is_odd, fma family, nearbyint_as_int, bitwise_cast, clip, pow with 21 integer exponents (scalar and batch forms against the shared square-and-multiply model); all 22 architectures' compile flags",
-        "thorough": "as quick with the thorough spaces of the underlying properties"}),
+    "C17": Composite([
+        ("exact", DrivePart(["scalar"], [], deadline=(600, 7200))),
+        ("elementary", MathPart("float,double", ["--scalar"], full_archs=["sse2", "fma3_avx2", "avx512vnni_avx512vbmi2"])),
+    ], RULE_EW + "; the scalar overloads are run one element per call and judged by the same reference models as the batch lanes (so scalar == batch wherever the model is single-valued); NaN operands are outside the property; the scalar overloads of the elementary functions (exp ... lgamma, sqrt: 26 functions x float/double, compiled with every architecture's flags) are judged against the exact result (glibc first reference, MPFR arbiter) with the bound the property text states for the family (4.5 ulp; erfc 128; tgamma 16/256; lgamma 8; sqrt 0.5), which together with C10/C11 for the batch lanes bounds their disagreement", {
+        "quick": "elementary: the C10/C11 quick unary argument spaces; exact: the C01/C02/C03/C06/C07/C08 operand spaces (8-bit pairs exhaustive, ALL16 x L16, lattices^2, every shift/rotate count, fp lattices, rounding windows) for add, sub, mul, div, mod, neg, abs, min, max, sadd, ssub, avg, avgr, incr/decr(_if), bitwise operators, shifts, rotates, comparisons, select, is_flint/is_even/is_odd, fma family, nearbyint_as_int, bitwise_cast, clip, pow with 21 integer exponents (scalar and batch forms against the shared square-and-multiply model); all 22 architectures' compile flags",
+        "thorough": "as quick with the thorough spaces of the underlying properties (elementary: all 2^32 float32 arguments with the flags of sse2, fma3<avx2> and avx512vnni<avx512vbmi2>; the lattices with every architecture's flags)"}),
 }
 
 
